@@ -22,6 +22,11 @@ open Wf.Gen
 
 instance : DecidablePred Wf.F64.Rep := fun x => inferInstanceAs (Decidable (x < Wf.Gen.F64.M))
 
+/-- (with Mathlib in scope `decide` on `∀ w ∈ l, _` over `BitVec 64` picks the Fintype instance and
+enumerates 2^64 words: go through `List.all`) -/
+theorem all_rep (l : List W) (h : l.all (fun w => decide (Wf.F64.Rep w)) = true) : ∀ w ∈ l, Wf.F64.Rep w :=
+  fun w hw => of_decide_eq_true (List.all_eq_true.mp h w hw)
+
 /-! ## the linear identity -/
 
 /-- Σ c_j·x_j in `BitVec 64` (wrapping) -/
